@@ -420,7 +420,7 @@ class Assembler:
 
             max_alignment = section.alignment.get(main_block, 0)
 
-            for extra_block in extra_blocks:
+            for extra_block in reversed(extra_blocks):
                 assert isinstance(extra_block, gtirb.CodeBlock)
                 assert not extra_block.size
                 assert extra_block not in self._state.block_types
